@@ -20,6 +20,9 @@ func register(id string, run func(*Run), replay func(Case) *Failure) {
 
 func init() {
 	register("C01", runC01, checkC01)
+	register("C02", runC02, checkC02)
+	register("C03", runC03, checkC03)
+	register("C04", runC04, checkC04)
 	register("C05", runC05, checkC05)
 	register("C06", runC06, checkC06)
 	register("C07", runC07, checkC07)
